@@ -1,5 +1,6 @@
 # SPDX-License-Identifier: MIT
 from dataclasses import dataclass
+from fractions import Fraction
 from typing import Optional, Union
 
 from ..exceptions import DecodeError, odxraise, odxrequire
@@ -80,7 +81,7 @@ class LinearSegment:
             odxraise(f"Internal values of linear compumethods must "
                      f"either be int or float (is: {type(internal_value).__name__})")
 
-        result = (self.offset + self.factor * internal_value) / self.denominator
+        result = self.__divide(self.offset + self.factor * internal_value, self.denominator)
 
         if self.physical_type in [
                 DataType.A_INT32,
@@ -94,7 +95,16 @@ class LinearSegment:
 
             result = round(result)
 
-        return result
+        return float(result) if isinstance(result, Fraction) else result
+
+    @staticmethod
+    def __divide(numerator: Union[float, int], denominator: Union[float, int]) -> Union[float, Fraction]:
+        """Division which is exact for integers (floating point numbers
+        cannot represent integers of more than 53 bits)"""
+        if isinstance(numerator, int) and isinstance(denominator, int) and denominator != 0:
+            return Fraction(numerator, denominator)
+
+        return numerator / denominator
 
     def convert_physical_to_internal(self, physical_value: AtomicOdxType) -> Union[float, int]:
         if not isinstance(physical_value, (int, float)):
@@ -105,7 +115,7 @@ class LinearSegment:
             # "If factor = 0 then COMPU-INVERSE-VALUE shall be specified.
             return self.inverse_value
 
-        result = (physical_value * self.denominator - self.offset) / self.factor
+        result = self.__divide(physical_value * self.denominator - self.offset, self.factor)
 
         if self.internal_type in [
                 DataType.A_INT32,
@@ -113,7 +123,7 @@ class LinearSegment:
         ]:
             result = round(result)
 
-        return result
+        return float(result) if isinstance(result, Fraction) else result
 
     def __compute_physical_limits(self) -> None:
         """Computes the physical limits and stores them in the properties
